@@ -332,7 +332,11 @@ def c10(run):
 # ------------------------------------------------------------------------------------------------ C09 / C13 / C14
 def mc_format(run):
     c = cfg(constants=dict(Scope="mc", MaxConsts=1 if run.quick else 2), invariants=("FormatOk", "VarintOk"))
-    return run.mc("Gen_Format", c, label="MC_Format")
+    r = run.mc("Gen_Format", c, label="MC_Format")
+    if not run.quick:
+        # symbolic: every x < 2^32 round-trips through the varint encoding (Apalache; the TLC check above covers class boundaries only)
+        run.apalache("Apa_Varint", "RoundTrip")
+    return r
 
 
 def prog_sources_small(run):
